@@ -175,7 +175,9 @@ def triangulate(polygon):
         x = np.cross(c - b, b - a)
         dot = np.dot(normal, x)
         yld = False
-        if dot > 1E-6:
+        # Convexity of the corner, with a tolerance relative to the size of the
+        # polygon (an absolute threshold rejects every corner of a small polygon).
+        if dot > 1E-6 * np.linalg.norm(normal) * np.linalg.norm(c - b) * np.linalg.norm(b - a):
             triangle = (a, b, c)
             if not any_point_in_triangle(triangle,
                                          looped_slice_inv(polygon, i, 3)):
